@@ -8,7 +8,7 @@ A case is one protocol line holding an operation tree in postfix form (see lean/
     pyslice / pyidx       Python's own s[i:j] / s[i]  (ties the specification functions to CPython)
 
 Trees (python side): ("s", text) ("c", col, text) ("ls"|"tp", [items]) ("mk", [args]) ("add", a, b)
-("iadd", a, b) ("join", "l"|"t", sep, [items]) ("idx", a, i) ("sl", a, i, j) ("fl", a, n).
+("iadd", a, b) ("join", "l"|"t", sep, [items]) ("idx", a, i) ("sl", a, i, j) ("fl", a, n) ("it", a) = list(a).
 """
 import ast
 import os
@@ -36,6 +36,7 @@ THEOREMS = [
     "C08.format_cells",
     "C08.format_plain",
     "C08.format_width",
+    "C08.iter_cells",
     "C08.eq_iff",
     "C08.eq_str_iff",
     "C08.eq_chunk_iff",
@@ -235,6 +236,8 @@ def postfix(t):
         return postfix(t[1]) + ["sl:%s:%s" % (_oi(t[2]), _oi(t[3]))]
     if k == "fl":
         return postfix(t[1]) + ["fl:%d" % t[2]]
+    if k == "it":
+        return postfix(t[1]) + ["iter"]
     if k == "dupiadd":
         return postfix(t[1]) + ["dupiadd"]
     if k == "flalias":
@@ -276,6 +279,8 @@ def parse_postfix(toks):
             st.append(("sl", st.pop(), _pi(f[1]), _pi(f[2])))
         elif k == "fl":
             st.append(("fl", st.pop(), int(f[1])))
+        elif k == "iter":
+            st.append(("it", st.pop()))
         elif k == "dupiadd":
             st.append(("dupiadd", st.pop()))
         elif k == "flalias":
@@ -358,6 +363,8 @@ def ev_real(t):
         return ev_real(t[1])[t[2]:t[3]]
     if k == "fl":
         return ev_real(t[1]).fixed_len(t[2])
+    if k == "it":
+        return list(ev_real(t[1]))
     if k == "dupiadd":
         x = ev_real(t[1])
 
@@ -495,6 +502,11 @@ def ref_step(t, kids):
         if a.kind not in ("t", "c") or n < 0:
             raise OutOfModel()
         return Ref("t", a.plain[:n].ljust(n), a.cols[:n] + [0] * (n - len(a.cols)))
+    if k == "it":
+        a = kids[0]
+        if a.kind not in ("t", "c"):
+            raise OutOfModel()
+        return Ref("ls", items=[Ref(a.kind, ch, [c], col=a.col) for ch, c in zip(list(a.plain), a.cols)])
     if k == "dupiadd":
         a = kids[0]
         if a.kind != "t":
@@ -572,6 +584,8 @@ def _real_step(t, kids):
         return kids[0][t[2]:t[3]]
     if k == "fl":
         return kids[0].fixed_len(t[2])
+    if k == "it":
+        return list(kids[0])
     if k == "dupiadd":
         x = kids[0]
 
@@ -738,6 +752,8 @@ def oracle(case, replies):
                 continue                      # empty chunk objects compared directly: out of the domain
             if ra.kind == "s" and rb.kind == "s":
                 continue
+            if ra.kind not in ("s", "c", "t") or rb.kind not in ("s", "c", "t"):
+                continue                      # lists are not compared with texts
             res = (a == b, b == a, not (a != b))
             if ra.plain == rb.plain and ra.cols == rb.cols:
                 if not all(res):
@@ -778,6 +794,9 @@ class _Gen:
     def part(self, depth):
         """anything `+=` accepts: a value, or a (nested) list / tuple of parts"""
         rng = self.rng
+        if rng.random() < 0.06 and depth < self.maxdepth:
+            a, ra = self.obj(depth + 1)
+            return ("it", a), ref_step(("it", a), [ra])
         if rng.random() < 0.15:
             kind = rng.choice(["ls", "tp"])
             its = [self.part(depth + 1) for _ in range(rng.randint(0, 3))]
@@ -1016,7 +1035,10 @@ def gen_cases(rng, tier):
             spec = rng.choice(["d", "x", "5d", "=5", "x=5", "<5x", "5.2", ".2", "a5", "<<<", "^^5", "5<", "5 ", "s5",
                                "ss", "<s5", ">>s", "5>3", "q", "<q", "5,", "5%", "#5", "!5"])
             yield _case(line_of("fmt", [t], spec), "malformed-format")
-    # 5. opt-in: operands that are the same object
+    # 5. thorough: every split of a short text into coloured chunks, every assembly, all bounds
+    if not quick:
+        yield from search_cases(rng, tier)
+    # 6. opt-in: operands that are the same object
     if ALIASING:
         for base in BASES:
             yield _case(line_of("val", [("dupiadd", _base_tree(base))]), "alias-self-iadd")
@@ -1077,7 +1099,7 @@ def _shrink_tree(t):
     """smaller trees: a child instead of the node, children shrunk, shorter texts, bounds nearer 0"""
     k = t[0]
     for x in kids_of(t):
-        if x[0] not in ("ls", "tp"):
+        if x[0] not in ("ls", "tp", "it"):
             yield x
     if k == "s" and t[1]:
         yield ("s", t[1][1:])
@@ -1121,7 +1143,7 @@ def shrink(case):
         return
     for i, t in enumerate(trees):
         for y in _shrink_tree(t):
-            if kind != "val" and y[0] in ("ls", "tp"):
+            if kind != "val" and y[0] in ("ls", "tp", "it"):
                 continue
             try:
                 yield {"lines": [line_of(kind, trees[:i] + [y] + trees[i + 1:], spec)], "meta": meta}
@@ -1136,7 +1158,7 @@ def shrink(case):
 RULE = ("one case = one operation tree (postfix line). Streams: exhaustive slices/indexes/fixed_len/format widths on 7 base "
         "texts of 0-4 chunks and on single chunks; random trees of depth <= 4 (thorough 6) over 2-6 colours and texts of "
         "0-4 characters from 'abc xyz s05<é中' (constructor, +, +=, reflected + with str/list/tuple, join, [i], [i:j], "
-        "fixed_len, nested lists/tuples, empty operands), observed as value / format(spec) / == against a re-assembly of the "
+        "fixed_len, list(x), nested lists/tuples, empty operands), observed as value / format(spec) / == against a re-assembly of the "
         "same cells, a near miss, a str, a chunk; IndexError trees; Python's own slicing; out-of-domain stream (negative "
         "fixed_len, malformed specs: model = code only). non-trivial = at least two operations and two distinct colours "
         "in the tree (py-slice: text of >= 2 characters); distinct by protocol line")
@@ -1194,7 +1216,8 @@ LEVEL_TEXT = ("Kernel-checked for all inputs on the Lean model of CHText / CHTex
               "reflected +, join, [i], [i:j], fixed_len (C08.canon); (2) refinement to the list of (character, colour) cells, one "
               "theorem per operation: += / constructor / + / reflected + concatenate cells, join = str.join, [i:j] = Python slicing "
               "for None/negative/out-of-range bounds (pySlice, itself proved against the index-level definition of the language "
-              "reference), [i] = str indexing with IndexError in exactly the same cases, fixed_len = s[:n].ljust(n), "
+              "reference), [i] = str indexing with IndexError in exactly the same cases, list(text) = the one-character texts of the "
+              "cells (the iteration loop terminates), fixed_len = s[:n].ljust(n), "
               "format(text, [[fill]align][width][s]) = Python's padding of the cells with default-coloured pads, hence its visible "
               "text = format(plain_text, spec); the chunk versions likewise; (3) == on texts satisfying the invariant is equality of "
               "cells (canonical chunk list is unique: C08.canon_repr), text == str iff default-coloured cells of that str, text == "
@@ -1207,7 +1230,7 @@ LEVEL_TEXT = ("Kernel-checked for all inputs on the Lean model of CHText / CHTex
 LEVEL_NOTE = ("Trusted: Lean kernel (axioms propext, Classical.choice, Quot.sound), translator/adapter/oracle in harness/c08.py, the "
               "sampled correspondence (exhaustive slices/indexes/fixed_len/widths on 7 base texts, 16 k random trees quick / 400 k "
               "thorough), CPython's str on the oracle side. Not modelled: escape sequences themselves (C09), CHText.make / "
-              "resize_chunks_list (internal, C12), iteration over a text, slice steps (rejected by CHText), format specs outside "
+              "resize_chunks_list (internal, C12), slice steps (rejected by CHText), format specs outside "
               "[[fill]align][width][s] (zero flag, precision, sign: the model answers `unmodelled` or follows the code, no theorem), "
               "negative fixed_len (model follows the code, outside the property), object identity: the model is value-based, so "
               "operations whose operands are the same object are outside it - `t += t` on a text of >= 2 chunks does not "
